@@ -191,32 +191,36 @@ class Codec(object):
 B53, B63, B64 = 2 ** 53, 2 ** 63, 2 ** 64
 D = datetime.datetime
 F32 = float(np.float32(0.1))
+EPS = 1.0000000000000002
 SCHEMES = [
     # class 1, 2, 3 in ascending order; per class the realisations (slot A = first, slot B = second, rotation moves on by two)
     Scheme('small', [[1, 1.0, np.int8(1), np.float32(1), np.int64(1), np.float64(1), np.uint16(1), np.float16(1)],
                      [2, 2.0, np.uint8(2), np.float32(2), np.int32(2), np.float64(2), np.int16(2), np.float16(2)],
                      [3, 3.0, np.uint64(3), np.float32(3), np.uint32(3), np.float64(3), np.int64(3), np.float16(3)]]),
-    Scheme('p53', [[B53, float(B53), np.int64(B53), np.float64(B53)],
-                   [B53 + 1, np.int64(B53 + 1), np.uint64(B53 + 1), B53 + 1],
-                   [B53 + 2, float(B53 + 2), np.uint64(B53 + 2), np.float64(B53 + 2)]]),
-    Scheme('n53', [[-B53 - 2, float(-B53 - 2), np.int64(-B53 - 2), -B53 - 2],
-                   [-B53 - 1, np.int64(-B53 - 1), -B53 - 1, np.int64(-B53 - 1)],
-                   [-B53, float(-B53), np.int64(-B53), np.float64(-B53)]]),
-    Scheme('p63', [[B63 - 1, np.int64(B63 - 1), np.uint64(B63 - 1), B63 - 1],
-                   [B63, float(B63), np.uint64(B63), np.float64(B63)],
-                   [B63 + 1, np.uint64(B63 + 1), B63 + 1, np.uint64(B63 + 1)]]),
-    Scheme('p64', [[B64 - 1, np.uint64(B64 - 1)], [B64, float(B64)], [B64 + 1, B64 + 1]]),
+    # large magnitudes, python ints and floats: several ints share one double; an int next to the float it rounds to
+    Scheme('p53', [[B53, float(B53)], [B53 + 1, B53 + 1], [B53 + 2, float(B53 + 2)]]),
+    Scheme('n53', [[-B53 - 2, float(-B53 - 2)], [-B53 - 1, -B53 - 1], [-B53, float(-B53)]]),
+    Scheme('p63', [[B63 - 1, B63 - 1], [B63, float(B63)], [B63 + 1, B63 + 1]]),
+    Scheme('p64', [[B64 - 1, B64 - 1], [B64, float(B64)], [B64 + 1, B64 + 1]]),
     Scheme('huge', [[10 ** 30, 10 ** 30], [10 ** 30 + 1, 10 ** 30 + 1], [10 ** 400, 10 ** 400]]),      # 10**400: beyond the doubles
     Scheme('stamp', [[1700000000000000000, np.int64(1700000000000000000)], [1700000000000000001, np.int64(1700000000000000001)],
-                     [1700000000000000128, np.int64(1700000000000000128)]]),      # nanosecond epoch stamps: one double for all three
-    Scheme('eps', [[1, 1.0, np.int64(1), np.float32(1)], [1.0000000000000002, np.float64(1.0000000000000002)], [2, 2.0, np.int16(2), np.float64(2)]]),
-    Scheme('f32', [[0.1, np.float64(0.1)], [F32, np.float32(0.1), np.float64(F32), np.float32(0.1)], [0.5, np.float32(0.5), np.float16(0.5), 0.5]]),
-    Scheme('zero', [[-1, -1.0, np.int8(-1), np.float32(-1)], [0, 0.0, -0.0, np.float64(-0.0), np.int64(0), np.float32(0), np.uint8(0), np.float16(-0.0)],
-                    [5e-324, np.float64(5e-324)]]),
+                     [1700000000000000128, np.int64(1700000000000000128)]]),      # nanosecond epoch stamps (int / numpy.int64): one double for all three
+    Scheme('eps', [[1, 1.0], [EPS, EPS], [2, 2.0]]),
+    Scheme('f32', [[0.1, 0.1], [F32, F32], [0.5, 0.5]]),
+    Scheme('zero', [[-1, -1.0], [0, 0.0, -0.0, 0], [5e-324, 5e-324]]),
     Scheme('dates', [[D(2000, 1, 1), np.datetime64('2000-01-01'), D(2000, 1, 1), datetime.date(2000, 1, 1)],
                      [D(2000, 1, 1, 0, 0, 0, 1), np.datetime64('2000-01-01T00:00:00.000001')],
                      [D(2000, 1, 2), datetime.date(2000, 1, 2), D(2000, 1, 2), np.datetime64('2000-01-02')]]),
-    # realisations on which today's code does not match equal keys (reported findings; run with VERIF_C02_HELD_BACK=1)
+    # ---- realisations on which today's code contradicts the statement (reported findings; run with VERIF_C02_HELD_BACK=1) ----
+    # numpy scalars whose own == is lossy (numpy compares an int64 with a float / uint64, a float32 with a python float after
+    # converting both to ONE numpy type): _listby groups raw keys with ==, the merge compares as_primitive()d keys exactly
+    Scheme('np53', [[B53, float(B53), np.int64(B53), np.float64(B53)], [B53 + 1, np.int64(B53 + 1), np.uint64(B53 + 1), B53 + 1],
+                    [B53 + 2, float(B53 + 2), np.uint64(B53 + 2), np.float64(B53 + 2)]], held_back=True),
+    Scheme('np63', [[B63 - 1, np.int64(B63 - 1), np.uint64(B63 - 1), B63 - 1], [B63, float(B63), np.uint64(B63), np.float64(B63)],
+                    [B63 + 1, np.uint64(B63 + 1), B63 + 1, np.uint64(B63 + 1)]], held_back=True),
+    Scheme('npeps', [[1, 1.0, np.int64(1), np.float32(1)], [EPS, np.float64(EPS)], [2, 2.0, np.int16(2), np.float64(2)]], held_back=True),
+    Scheme('npf32', [[0.1, np.float64(0.1)], [F32, np.float32(0.1), np.float64(F32), np.float32(0.1)], [0.5, np.float32(0.5), np.float16(0.5), 0.5]], held_back=True),
+    # realisations that rank as a type of their own in cmp (str(type(x))): equal keys are not matched
     Scheme('timestamp', [[D(2000, 1, 1), pd.Timestamp('2000-01-01')], [D(2000, 1, 1, 12), pd.Timestamp('2000-01-01 12:00')],
                          [D(2000, 1, 2), pd.Timestamp('2000-01-02')]], held_back=True),
     Scheme('strsub', [['a', S('a'), 'a', np.str_('a')], ['b', S('b'), 'b', np.str_('b')], ['c', S('c'), 'c', np.str_('c')]], held_back=True),
